@@ -256,7 +256,7 @@ def run_interp(case):
             if isinstance(got, bytes) and len(got) == len(want):
                 pos = next(i for i in range(len(want)) if got[i] != want[i])
             res.violation(
-                f"C15/interp/size{len(xs)}/{'to' + str(x) if x >= 254 else 'to-index'}",
+                f"C15/interp/size{len(xs)}",
                 {"engine": "interp", "case": case},
                 {"x": x, "first_diff_at": pos, "got": repr(got)[:80]},
                 {"want": want[:16].hex()},
@@ -324,7 +324,7 @@ def run_wide(case):
 
 # ---------------------------------------------------------------- split
 def gen_split(tier, seed):
-    cfgs = [cfg(), cfg(**CFG_256), cfg(rs="zero"), cfg(rs="ones"), cfg(bits=256, rs="ctr", sv="ones"), cfg(sv="zero", pp="bin", e=1)]
+    cfgs = [cfg(), cfg(**CFG_256), cfg(rs="zero"), cfg(rs="ones", id="ones"), cfg(bits=256, rs="ctr", sv="ones", id="0"), cfg(sv="zero", pp="bin", e=1)]
     if tier == "thorough":
         cfgs += [cfg(**d) for d in CFG_DEVS[1:]] + [cfg(bits=256, sv=sv, rs=rs) for sv in ("zero", "hi", "f2") for rs in ("zero", "ones", "fill")]
     out = []
@@ -338,7 +338,7 @@ def run_split(case):
     res = Res()
     c, k, n, seed = case["cfg"], case["k"], case["n"], case["seed"]
     vc = {"engine": "split", "case": case}
-    tag = f"{kclass(k)},{c['bits']}"
+    tag = kclass(k)
     mn, secret, pp, shares = make_split(c, k, n, seed)
     err = well_formed(shares, k, n)
     if err:
@@ -359,7 +359,7 @@ def run_split(case):
         except ref.Invalid as e:
             got = "Invalid(%s)" % e
         if got != want:
-            res.violation(f"C15/split/ref-recover/{tag}/{name}", vc, got, want.hex(), "the reference recovery of library-generated shares does not give the secret")
+            res.violation(f"C15/split/ref-recover/{tag}", vc, got, want.hex(), "the reference recovery of library-generated shares does not give the secret")
             return res
     # all points on one polynomial of degree < k
     pts = [(d["gi"], d["value"]) for d in dec]
@@ -397,7 +397,8 @@ def gen_threshold(tier, seed):
                     for size in range(0, n + 1):
                         cases.append({"cfg": c, "k": k, "n": n, "mode": "size", "size": size, "seed": seed})
                 elif n >= 13:
-                    for size in sorted({s for s in (0, 1, k - 1, k, k + 1, n) if 0 <= s <= n}):
+                    wanted = (0, 1, k - 1, k, k + 1, n) if c["bits"] == 128 else (k - 1, k, n)
+                    for size in sorted({s for s in wanted if 0 <= s <= n}):
                         cases.append({"cfg": c, "k": k, "n": n, "mode": "size", "size": size, "seed": seed})
 
     def weight(cs):
@@ -442,7 +443,7 @@ def run_threshold(case):
     res = Res()
     c, k, n, seed = case["cfg"], case["k"], case["n"], case["seed"]
     vc = {"engine": "threshold", "case": case}
-    tag = f"{kclass(k)},{c['bits']}"
+    tag = kclass(k)
     mn, secret, pp, shares = make_split(c, k, n, seed)
     err = well_formed(shares, k, n)
     if err:
@@ -457,7 +458,7 @@ def run_threshold(case):
         r = attempt(ShareSet.recover_mnemonic, sub, pp)
         if size >= k:
             if r != mn:
-                rel = "size=k" if size == k else "size=n" if size == m else "size>k"
+                rel = "size=k" if size == k else "size>k"
                 res.violation(
                     f"C15/threshold/not-recovered/{tag}/{rel}",
                     vc,
@@ -470,7 +471,7 @@ def run_threshold(case):
         else:
             if not isinstance(r, Rejected):
                 res.violation(
-                    f"C15/threshold/below-threshold-accepted/{tag}/size=k-{k - size if k - size < 2 else 'many'}",
+                    f"C15/threshold/below-threshold-accepted/{tag}",
                     vc,
                     {"subset": list(comb), "got": repr(r)[:120], "is_secret": r == mn},
                     "rejection",
@@ -574,7 +575,7 @@ def run_mixed(case):
                         res.ok(f"mixed-rejected({'digest' if why == 'digest' else 'header/count'})", nontrivial=(repr(case["a"]), case["v"], case["k"], case["n"], case["kb"], case["nb"], ma, mb, order) if why == "digest" else None)
                     else:
                         res.violation(
-                            f"C15/mixed/accepted/{case['v']}/{kclass(case['k'])}",
+                            f"C15/mixed/accepted/reference-rejects-for-{why.replace(' ', '-')}",
                             vc,
                             {"from_A": ia, "from_B": ib, "order": order, "got": repr(r)[:120], "equals_A": r == mnA, "equals_B": r == mnB},
                             f"rejection (reference: {why})",
@@ -585,7 +586,7 @@ def run_mixed(case):
                     if r == want or isinstance(r, Rejected):
                         res.ok("mixed-but-consistent(reference accepts)")
                     else:
-                        res.violation(f"C15/mixed/garbage/{case['v']}/{kclass(case['k'])}", vc, {"from_A": ia, "from_B": ib, "got": repr(r)[:120]}, want, "mixed set accepted with a value different from the reference's")
+                        res.violation("C15/mixed/garbage", vc, {"from_A": ia, "from_B": ib, "got": repr(r)[:120]}, want, "mixed set accepted with a value different from the reference's")
     return res
 
 
@@ -644,6 +645,20 @@ def lib_fields(p):
     }
 
 
+def word_diff(got, want):
+    """which part of the share text differs: header words 0..3, value words, the 3 checksum words"""
+    if not isinstance(got, str):
+        return "raised"
+    g, w = got.split(), want.split()
+    if len(g) != len(w):
+        return "length"
+    parts = set()
+    for i, (a, b) in enumerate(zip(g, w)):
+        if a != b:
+            parts.add("header" if i < 4 else "checksum" if i >= len(w) - 3 else "value")
+    return "+".join(sorted(parts)) + "-words"
+
+
 def check_header(res, s, cls, vc):
     from buidl.shamir import Share
 
@@ -651,27 +666,27 @@ def check_header(res, s, cls, vc):
     assert ref.decode_share(want) == s
     obj = attempt(Share, s["bits"], s["id"], s["exp"], s["gi"], s["gt"], s["gc"], s["mi"], s["mt"], int.from_bytes(s["value"], "big"))
     if isinstance(obj, Rejected):
-        res.violation(f"C15/header/construct/{cls}", vc, {"share": s, "how": obj.how}, "constructible", "Share() refuses in-range header fields")
+        res.violation("C15/header/construct", vc, {"share": s, "how": obj.how}, "constructible", "Share() refuses in-range header fields")
         return
     text = attempt(obj.mnemonic)
     if text != want:
-        res.violation(f"C15/header/encode/{cls}", vc, {"share": s, "got": repr(text)[:200]}, want, "Share.mnemonic differs from the reference encoding")
+        res.violation(f"C15/header/encode/{word_diff(text, want)}", vc, {"share": s, "got": repr(text)[:200]}, want, "Share.mnemonic differs from the reference encoding")
     else:
         res.ok("mnemonic==ref")
     p = attempt(Share.parse, want)
     if isinstance(p, Rejected):
-        res.violation(f"C15/header/parse-rejects/{cls}", vc, {"share": s, "text": want, "how": p.how}, "parses", "Share.parse rejects a well-formed share")
+        res.violation("C15/header/parse-rejects", vc, {"share": s, "text": want, "how": p.how}, "parses", "Share.parse rejects a well-formed share")
         return
     f = attempt(lib_fields, p)
     exp_f = dict(s, int=int.from_bytes(s["value"], "big"))
     if f != exp_f:
         diff = sorted(k for k in exp_f if isinstance(f, Rejected) or f.get(k) != exp_f[k])
-        res.violation(f"C15/header/parse-fields/{cls}/{'+'.join(diff)}", vc, {"text": want, "got": f}, exp_f, "parsed share fields differ from the encoded ones")
+        res.violation(f"C15/header/parse-fields/{'+'.join(diff)}", vc, {"text": want, "got": f}, exp_f, "parsed share fields differ from the encoded ones")
     else:
         res.ok("parse-fields==ref")
     back = attempt(p.mnemonic)
     if back != want:
-        res.violation(f"C15/header/roundtrip/{cls}", vc, {"text": want, "got": repr(back)[:200]}, want, "parse -> mnemonic does not reproduce the share text")
+        res.violation(f"C15/header/roundtrip/{word_diff(back, want)}", vc, {"text": want, "got": repr(back)[:200]}, want, "parse -> mnemonic does not reproduce the share text")
     else:
         res.ok("parse.mnemonic==text", nontrivial=want)
 
@@ -1115,7 +1130,7 @@ def engines(tier, seed):
             chunk=1,
             rule="generate_shares -> recover_mnemonic end to end. Quick: 14 configurations x all (k,n), n<=6 x every subset (every ordered arrangement for n<=4) incl. the "
             "empty one; 2 configurations (128/256 bit) x n in 7..8 x every subset, and n in 9..16 x every cyclic window of size k-1,k,k+1 plus the full set. Thorough: "
-            "14 configurations x n<=8 x every subset; 2 configurations x n in 9..12 x every subset, n in 13..16 x every subset of size 0,1,k-1,k,k+1,n. >= k shares must "
+            "14 configurations x n<=8 x every subset; 2 configurations x n in 9..12 x every subset, n in 13..16 x every subset of size 0,1,k-1,k,k+1,n (128 bit) / k-1,k,n (256 bit). >= k shares must "
             "return exactly the original mnemonic, < k must be rejected, a different passphrase must not return it. Non-trivial = every (configuration,k,n,subset)",
         ),
         Engine(
